@@ -15,6 +15,10 @@ def sigdef : P SigDef := do
     match unhex n, unhex tg, parseTyp ty, parseTs ts with
     | some name, some tag, some typ, some k => pure { name, tag, typ, ts := k }
     | _, _, _, _ => failure
+  | [n, tg, ty, ts, ps] =>
+    match unhex n, unhex tg, parseTyp ty, parseTs ts, ps.toNat? with
+    | some name, some tag, some typ, some k, some pos => pure { name, tag, typ, ts := k, pos }
+    | _, _, _, _, _ => failure
   | _ => failure
 
 def lineP : P (String × List Char) := do
